@@ -1,7 +1,7 @@
 #!/bin/bash
 # usage: seedcheck.sh <Cxx> <n> [check-id]  -- confirm a seeded change from /tmp/seed-Cxx/out/n and run the check on it
 id=$1; n=$2; chk=${3:-$id}
-src=/tmp/seed-$id/out/$n
+src=/tmp/seed-$id${SEED_SUFFIX}/out/$n
 [ -f $src/patch.diff ] || { echo "no $src/patch.diff"; exit 3; }
 export GOFLAGS=-mod=mod GOPROXY=off GOSUMDB=off GOTOOLCHAIN=local
 wt=/tmp/sc-$$-$RANDOM
